@@ -80,6 +80,9 @@ func debugCmd(args []string) {
 			}
 		}
 		cnt[st]++
+		if o.Secs > 2 && (st == "proved" || st == "canary-ok") {
+			fmt.Printf("SLOW %-8s %-70s %s %.2fs\n", st, o.Name, o.Solver, o.Secs)
+		}
 		if st != "proved" && st != "canary-ok" {
 			fmt.Printf("%-10s %-70s %s %.2fs %s [%s]\n", st, o.Name, o.Solver, o.Secs, o.Pos, o.Desc)
 		}
